@@ -162,6 +162,13 @@ func init() {
 	}, types.Null)
 }
 
+// quiet: nothing else ran that wrote to stdout or stderr (the recording builtin writes nothing).
+func quiet(fork *lang.Fork) {
+	bErr, _ := fork.Stderr.ReadAll()
+	bOut, _ := fork.Stdout.ReadAll()
+	rt.Assert(len(bOut) == 0 && len(bErr) == 0, "something besides the one command produced output")
+}
+
 // VerifC08Run: `verifc08rec $v` executed as a block; exactly one command runs and it gets one
 // verbatim argument.
 func VerifC08Run() {
@@ -177,6 +184,7 @@ func VerifC08Run() {
 	rt.Reach("block-ran")
 	rt.Assert(err == nil, "block failed to compile")
 	rt.Assert(len(recorded) == 1, "not exactly one command ran")
+	quiet(fork)
 	if len(recorded) != 1 {
 		return
 	}
@@ -237,6 +245,7 @@ func VerifC08JsonArray() {
 	rt.Reach("json-array-ran")
 	rt.Assert(err == nil, "block failed to compile")
 	rt.Assert(len(recorded) == 1, "not exactly one command ran")
+	quiet(fork)
 	if len(recorded) != 1 {
 		return
 	}
@@ -262,6 +271,7 @@ func VerifC08PoolScalar() {
 	rt.Reach("pool-scalar-ran")
 	rt.Assert(err == nil, "block failed to compile")
 	rt.Assert(len(recorded) == 1, "not exactly one command ran")
+	quiet(fork)
 	if len(recorded) != 1 {
 		return
 	}
